@@ -96,7 +96,16 @@ fn real_decode(d: &mut ChunkDeserializer, pieces: &[&[u8]]) -> Result<Vec<Msg>, 
                     let mm = Msg { ts: m.timestamp.value, ty: m.type_id, msid: m.message_stream_id, data: m.data.to_vec() };
                     if mm.ty == 1 && mm.data.len() >= 4 {
                         let sz = u32::from_be_bytes([mm.data[0], mm.data[1], mm.data[2], mm.data[3]]);
-                        if sz <= 0x7FFF_FFFF { if let Err(e) = d.set_max_chunk_size(sz as usize) { return Err(format!("set_max_chunk_size: {}", e)); } }
+                        if sz >= 1 && sz <= 0x7FFF_FFFF {
+                            // "a deserializer that honours each DECODED chunk-size change": the size is taken from the library's own
+                            // decoding of the message body, as the sessions do
+                            match catch_unwind(AssertUnwindSafe(|| m.to_rtmp_message())) {
+                                Ok(Ok(rml_rtmp::messages::RtmpMessage::SetChunkSize { size })) => { if let Err(e) = d.set_max_chunk_size(size as usize) { return Err(format!("set_max_chunk_size({}): {}", size, e)); } }
+                                Ok(Ok(other)) => return Err(format!("SetChunkSize body {:?} (size {}) decoded as {:?}", mm.data, sz, other)),
+                                Ok(Err(e)) => return Err(format!("the receiver cannot decode the in-band chunk-size change to {} (body {:?}): {}", sz, mm.data, e)),
+                                Err(_) => return Err(format!("PANIC decoding the in-band chunk-size change to {}", sz)),
+                            }
+                        }
                     }
                     out.push(mm);
                 }
